@@ -62,6 +62,10 @@ class Scheduler:
         self.steps += 1
         if self.steps > self.max_steps:
             raise core.HarnessError("scheduler step cap exceeded")
+        if self.wall_step and self.steps == self.wall_step["at_step"]:
+            # the wall clock is set back / forth here; the monotonic (scheduler) clock runs on
+            self.cs.clock.wall_offset_us += self.wall_step["us"]
+            self.cs.extra["wall_clock_stepped"] = self.wall_step["us"]
         idx = core.h64(self.seed, "pick", self.steps) % len(candidates)
         t = candidates[idx]
         self.trace.append((reason, t.name))
@@ -119,6 +123,7 @@ class Scheduler:
 
     hang = False
     shutdown = False
+    wall_step = None
 
     # -- API used by tasks
     def yield_point(self, reason):
@@ -346,13 +351,14 @@ def make_sim_get(script):
     return sim_get
 
 
-def run_cli_job(cs, tool, argv, net_script, sched_seed, preempt_permille):
+def run_cli_job(cs, tool, argv, net_script, sched_seed, preempt_permille, wall_step=None):
     """the job executed inside the simulated process for C20.  tool: 'ascmhl' | 'ascmhl-debug'."""
     global SCHED
     import importlib
     import requests
 
     sched = SCHED = Scheduler(cs, sched_seed, preempt_permille)
+    sched.wall_step = wall_step
     sched.main.os_thread = threading.current_thread()
     cs.on_effect = lambda seq, kind, rel: sched.yield_point("effect")
     requests.get = make_sim_get(net_script)
